@@ -19,6 +19,8 @@ class RequestChannelRequester(RequestChannelCommon, Requester):
                  sending_done: Optional[asyncio.Event] = None):
         super().__init__(socket, publisher, sending_done)
         self._payload = payload
+        self._is_requested = False
+        self._cancel_after_request = False
 
     def setup(self):
         super().setup()
@@ -35,7 +37,18 @@ class RequestChannelRequester(RequestChannelCommon, Requester):
     def subscribe(self, subscriber: Subscriber):
         self.setup()
         super().subscribe(subscriber)
+        self._is_requested = True
         self._send_channel_request(self._payload)
+
+        if self._cancel_after_request:  # cancelled from within on_subscribe: CANCEL must not precede the request
+            self.send_cancel()
 
         if self._publisher is None:
             self.mark_completed_and_finish(sent=True)
+
+    def cancel(self):
+        if self._is_requested:
+            super().cancel()
+        elif not self._received_complete:
+            self._cancel_after_request = True
+            self.mark_completed_and_finish(received=True)
